@@ -51,13 +51,20 @@ SIGS = {
     "bad-service": ("def check(node: {T}, errors: list[Error], config: Settings) -> None:\n    pass", False, False),
     "bad-service-type": ("def check(node: {T}, errors: list[Error], settings: int) -> None:\n    pass", False, False),
     "unannotated": ("def check(node, errors):\n    pass", False, False),
+    # node classes the visitor has no visit method for: a check annotated with one can never be called
+    "abstract-refexpr": ("def check(node: RefExpr, errors: list[Error]) -> None:\n    _log('call', node)", False, False),
+    "abstract-expression": ("def check(node: Expression, errors: list[Error]) -> None:\n    _log('call', node)", False, False),
+    "abstract-node": ("def check(node: Node, errors: list[Error]) -> None:\n    _log('call', node)", False, False),
+    "abstract-in-union": ("def check(node: {T} | Statement, errors: list[Error]) -> None:\n    _log('call', node)", False, False),
+    "str-annotation": ("def check(node: 'NoSuchNode', errors: list[Error]) -> None:\n    pass", False, False),
+    "optional-node": ("def check(node: {T} | None, errors: list[Error]) -> None:\n    pass", False, False),
     "not-callable": ("check = 5", False, False),
 }
 
 
 def make_module(path: Path, prefix: str, code: int, sig: str, node_type: str = "IntExpr", enabled: bool = True) -> None:
     path.parent.mkdir(parents=True, exist_ok=True)
-    path.write_text(CHECK_TPL.format(imports=f"{node_type}, StrExpr", prefix=prefix, code=code, enabled=enabled,
+    path.write_text(CHECK_TPL.format(imports=f"{node_type}, StrExpr, RefExpr, Expression, Node, Statement", prefix=prefix, code=code, enabled=enabled,
                                      check_def=SIGS[sig][0].replace("{T}", node_type)))
 
 
